@@ -221,6 +221,9 @@ def shared_rules(ctx, prog, ev, rep):
     c01.r6(ctx, prog, ev, Shared(rep, {"C01-R6": "C03-R6"}, lender="C01"))
     # a reported path can be queried again: every Normalized Path is accepted by the library's own parser
     c09.r6(ctx, Shared(rep, {"C09-R6": "C03-R7"}, lender="C09"))
+    # a reported name step is looked up again through <Value as Queryable>::get: one quote layer per style, also for ''
+    from rules import c13
+    c13.r3(ctx, Shared(rep, {"C13-R3": "C03-R8"}, lender="C13", only_keys=["quote-styles"]))
 
 
 def r4(prog, ev, rep):
